@@ -32,6 +32,11 @@ CONFIGS = {
     # mid-sized tables (order 7: the smallest path index in which hopscotch displacement happens)
     "odd": dict(CONFIG_ROUTED_MESSAGES_TIMEOUT="0.25", CONFIG_INITIAL_FETCH_TABLE_SIZE=3, CONFIG_MAX_NUMBERS_OF_MATCHERS_IN_FETCH=2,
                 CONFIG_ELEMENT_TABLE_ORDER=7, CONFIG_ROUTING_TABLE_ORDER=4, CONFIG_MAX_EPOLL_EVENTS=3, CONFIG_MAX_MESSAGE_SIZE=300),
+    # ... and values on the generous side: more matchers than fit into 4 bits, messages larger than 1 KiB with a write buffer that
+    # holds just one and a half of them, large tables, a batch size that is no power of two, a short listen backlog
+    "roomy": dict(CONFIG_MAX_NUMBERS_OF_MATCHERS_IN_FETCH=20, CONFIG_MAX_MESSAGE_SIZE=1024, CONFIG_MAX_WRITE_BUFFER_SIZE=1536,
+                  CONFIG_INITIAL_FETCH_TABLE_SIZE=16, CONFIG_ELEMENT_TABLE_ORDER=9, CONFIG_ROUTING_TABLE_ORDER=8, CONFIG_MAX_EPOLL_EVENTS=17,
+                  CONFIG_LISTEN_BACKLOG=5, CONFIG_ROUTED_MESSAGES_TIMEOUT="30.5"),
 }
 
 LANES = {
